@@ -246,7 +246,8 @@ fn run_once_x(r: &J, ty: u32, payload: &OV, src: &str, etype: &str, script: &[bo
     let deep = r["deep"].as_bool().unwrap_or(false);
     out.emit(&json!({"e": head, "ty": ty, "val": if deep { rec("null") } else { enc_ov(&pres) }, "src": src, "etype": etype,
                      "script": script.iter().map(|b| if *b { 1 } else { 0 }).collect::<Vec<u8>>(), "dflt": if dflt { "c" } else { "b" },
-                     "deep": deep, "pk": if deep { json!([]) } else { parse_table(payload) }, "inp": inp}));
+                     "deep": deep, "pk": if deep { json!([]) } else { parse_table(payload) }, "inp": inp,
+                     "bare": crate::gen_cat::BARE_IDS.contains(&ty)}));
     for e in &events {
         out.emit(e);
     }
